@@ -995,7 +995,14 @@ def _check_noop_rule(f, c, sid):
                 o is not u and o['conn'].req.seq_done is not None and
                 u['conn'].req.seq_arrive is not None and
                 o['conn'].req.seq_done > u['conn'].req.seq_arrive
-                for o in c.upgrades)
+                for o in c.upgrades) or any(
+                # (likewise the handler of somebody else's socket for this
+                # session that fails while this handshake is under way)
+                r.kind == 'ws' and ('sid=' + sid) in (r.query or '') and
+                r.seq_done is not None and
+                u['conn'].req.seq_arrive is not None and
+                r.seq_done > u['conn'].req.seq_arrive
+                for cl in f.h.clients for r in cl.raws)
             if nxt is not None and req.seq_resp < nxt and \
                     not wound_down_late:
                 out.append(V('one-transport', '%s|message-on-poll-during-'
@@ -1425,6 +1432,25 @@ def check_upgrade(h, f=None):
         if c is None or not s['accepted']:
             continue
         direct = c.open_ws is not None
+        # the hold on packet sends lasts as long as a handshake does: with
+        # every upgrade socket of the session long finished, nothing may
+        # still be holding it
+        st_end = h.final['table'].get(sid)
+        if st_end and st_end.get('upgrading') and not st_end.get('closed') \
+                and not st_end.get('closing'):
+            socks = [u['conn'].req for u in c.upgrades] + [
+                r for cl in h.clients for r in cl.raws
+                if r.kind == 'ws' and ('sid=' + sid) in (r.query or '')]
+            socks = [r for r in socks if r.seq_arrive is not None]
+            if socks and all(r.seq_done is not None and
+                             r.t_done < f.end - 1.0 - EPS for r in socks):
+                out.append(V('failed-upgrade-harmless',
+                             '%s|hold-never-released' % impl,
+                             'session %s: every upgrade socket finished by '
+                             't=%.4f, yet at t=%.4f the session still holds '
+                             'its packets for a handshake (polls get NOOP '
+                             'only)' % (sid, max(r.t_done for r in socks),
+                                        f.end)))
         rivals = [r.ws for r in c.raws
                   if r.kind == 'ws' and getattr(r, 'raw_spec', None) and
                   r.raw_spec.get('script') and ('sid=' + sid) in r.query]
